@@ -195,7 +195,11 @@ func (f *fakeDedicated) Close() { f.s.add("inner:Close"); f.s.lastIn = "void" }
 
 // ---- counting hook
 
-type countHook struct{ s *hkState }
+type countHook struct {
+	s     *hkState
+	level int  // 0: single hook (old event spelling); >= 1: level in a stack, 1 = innermost
+	fwd   bool // stack hooks always forward
+}
 
 var _ rueidishook.Hook = (*countHook)(nil)
 
@@ -214,6 +218,9 @@ func sameCompleted(a, b rueidis.Completed) bool {
 }
 func (h *countHook) ev(m string, c rueidis.Client, ok bool) {
 	e := "hook:" + m + "(" + h.cls(c) + ")"
+	if h.level > 0 {
+		e = fmt.Sprintf("hook@%d:%s(%s)", h.level, m, h.cls(c))
+	}
 	if !ok {
 		e += "!args"
 	}
@@ -222,7 +229,7 @@ func (h *countHook) ev(m string, c rueidis.Client, ok bool) {
 func (h *countHook) Do(c rueidis.Client, ctx context.Context, cmd rueidis.Completed) rueidis.RedisResult {
 	h.ev("Do", c, h.ctxOK(ctx) && sameCompleted(cmd, h.s.cmd))
 	var r rueidis.RedisResult
-	if h.s.fwd {
+	if h.s.fwd || h.fwd {
 		r = c.Do(ctx, cmd)
 	} else {
 		r = rueidis.NewErrorResult(h.s.tag("hook"))
@@ -237,7 +244,7 @@ func (h *countHook) DoMulti(c rueidis.Client, ctx context.Context, multi ...ruei
 	}
 	h.ev("DoMulti", c, ok)
 	var rs []rueidis.RedisResult
-	if h.s.fwd {
+	if h.s.fwd || h.fwd {
 		rs = c.DoMulti(ctx, multi...)
 	} else {
 		rs = make([]rueidis.RedisResult, len(multi))
@@ -251,7 +258,7 @@ func (h *countHook) DoMulti(c rueidis.Client, ctx context.Context, multi ...ruei
 func (h *countHook) DoCache(c rueidis.Client, ctx context.Context, cmd rueidis.Cacheable, ttl time.Duration) rueidis.RedisResult {
 	h.ev("DoCache", c, h.ctxOK(ctx) && ttl == h.s.ttl && sameCompleted(rueidis.Completed(cmd), rueidis.Completed(h.s.cache)))
 	var r rueidis.RedisResult
-	if h.s.fwd {
+	if h.s.fwd || h.fwd {
 		r = c.DoCache(ctx, cmd, ttl)
 	} else {
 		r = rueidis.NewErrorResult(h.s.tag("hook"))
@@ -267,7 +274,7 @@ func (h *countHook) DoMultiCache(c rueidis.Client, ctx context.Context, multi ..
 	}
 	h.ev("DoMultiCache", c, ok)
 	var rs []rueidis.RedisResult
-	if h.s.fwd {
+	if h.s.fwd || h.fwd {
 		rs = c.DoMultiCache(ctx, multi...)
 	} else {
 		rs = make([]rueidis.RedisResult, len(multi))
@@ -285,7 +292,7 @@ func (h *countHook) Receive(c rueidis.Client, ctx context.Context, subscribe rue
 	}
 	h.ev("Receive", c, h.ctxOK(ctx) && sameCompleted(subscribe, h.s.cmd) && h.s.fnHit)
 	var e error
-	if h.s.fwd {
+	if h.s.fwd || h.fwd {
 		e = c.Receive(ctx, subscribe, fn)
 	} else {
 		e = h.s.tag("hook")
@@ -296,7 +303,7 @@ func (h *countHook) Receive(c rueidis.Client, ctx context.Context, subscribe rue
 func (h *countHook) DoStream(c rueidis.Client, ctx context.Context, cmd rueidis.Completed) rueidis.RedisResultStream {
 	h.ev("DoStream", c, h.ctxOK(ctx) && sameCompleted(cmd, h.s.cmd))
 	var r rueidis.RedisResultStream
-	if h.s.fwd {
+	if h.s.fwd || h.fwd {
 		r = c.DoStream(ctx, cmd)
 	} else {
 		r = rueidis.NewErrorResultStream(h.s.tag("hook"))
@@ -311,7 +318,7 @@ func (h *countHook) DoMultiStream(c rueidis.Client, ctx context.Context, multi .
 	}
 	h.ev("DoMultiStream", c, ok)
 	var r rueidis.RedisResultStream
-	if h.s.fwd {
+	if h.s.fwd || h.fwd {
 		r = c.DoMultiStream(ctx, multi...)
 	} else {
 		r = rueidis.NewErrorResultStream(h.s.tag("hook"))
@@ -362,7 +369,7 @@ func hkCall(s *hkState, cur any, m string, argc int) (ret string, has bool) {
 	s.lastHook, s.lastIn = "", ""
 	hooksBefore := 0
 	for _, e := range s.evs {
-		if strings.HasPrefix(e, "hook:") {
+		if strings.HasPrefix(e, "hook") {
 			hooksBefore++
 		}
 	}
@@ -459,7 +466,7 @@ func hkCall(s *hkState, cur any, m string, argc int) (ret string, has bool) {
 	}
 	hooksAfter := 0
 	for _, e := range s.evs {
-		if strings.HasPrefix(e, "hook:") {
+		if strings.HasPrefix(e, "hook") {
 			hooksAfter++
 		}
 	}
@@ -511,6 +518,10 @@ func hkFollow(s *hkState, cur any, path []string, then func(cur any)) (ok bool) 
 
 func hookOp(c *Ctx, line string) {
 	w := strings.Fields(line)
+	if len(w) > 0 && (w[0] == "stack" || w[0] == "!stack") {
+		stackOp(c, line)
+		return
+	}
 	// hook <method> <argc> <path> <fwd>   |   !hook <method> <argc> <path>
 	// (older spelling: call <path> <method> <fwd> | !call <path> <method>, three commands)
 	var m, pw string
@@ -597,6 +608,77 @@ func hookOp(c *Ctx, line string) {
 	}
 }
 
+// stackOp: stacked hooks.  stack <depth> <method> <argc> <path>  |  !stack <depth> <method> <argc> <path>
+func stackOp(c *Ctx, line string) {
+	w := strings.Fields(line)
+	if len(w) != 5 {
+		c.Emit(line, "bad-op", false)
+		return
+	}
+	depth, argc := 1, 1
+	fmt.Sscan(w[1], &depth)
+	fmt.Sscan(w[3], &argc)
+	m, pw := w[2], w[4]
+	var path []string
+	if pw != "-" {
+		path = strings.Split(pw, ",")
+	}
+	oracle := w[0] == "!stack"
+	expected := ""
+	ans := func() (ans string) {
+		s := &hkState{}
+		defer func() {
+			if r := recover(); r != nil {
+				ans = "log=" + logStr(s.evs) + " ret=panic"
+			}
+		}()
+		s.root = &fakeInner{s: s, name: "root"}
+		var cl rueidis.Client = s.root
+		for l := 1; l <= depth; l++ {
+			cl = rueidishook.WithHook(cl, &countHook{s: s, level: l, fwd: true})
+		}
+		var ret string
+		var has bool
+		ok := hkFollow(s, cl, path, func(cur any) { ret, has = hkCall(s, cur, m, argc) })
+		if !ok {
+			return "nopath"
+		}
+		if !has {
+			return "nomethod"
+		}
+		if !oracle {
+			return "log=" + logStr(s.evs) + " ret=" + ret
+		}
+		var order []string
+		args, inner := "ok", -s.innerBefore
+		for _, e := range s.evs {
+			switch {
+			case strings.HasPrefix(e, "hook@"):
+				order = append(order, e[5:strings.Index(e, "(")])
+				if strings.HasSuffix(e, "!args") {
+					args = "bad"
+				}
+			case strings.HasPrefix(e, "inner:"):
+				inner++
+			}
+		}
+		var want []string
+		for l := depth; l >= 1; l-- {
+			want = append(want, fmt.Sprintf("%d:%s", l, m))
+		}
+		expected = "order=" + strings.Join(want, ",") + " args=ok inner=1 ret=hook"
+		if len(order) == 0 {
+			order = []string{"-"}
+		}
+		return fmt.Sprintf("order=%s args=%s inner=%d ret=%s", strings.Join(order, ","), args, inner, ret)
+	}()
+	c.Hit(fmt.Sprintf("%s:depth%d", w[0], depth))
+	c.Emit(line, ans, depth > 1 && hkEntry[m] && ans != "nopath" && ans != "nomethod")
+	if oracle && hkEntry[m] && expected != "" && ans != expected {
+		c.Fail("hook:level-skipped:"+pw, line, fmt.Sprintf("%d stacked hooks, %s with %d command(s) on the client reached by path %q: %s; the property demands %s (every level's same-named hook exactly once, outer to inner)", depth, m, argc, pw, ans, expected))
+	}
+}
+
 func logStr(evs []string) string {
 	if len(evs) == 0 {
 		return "-"
@@ -640,6 +722,26 @@ func runHook(c *Ctx) {
 			}
 		}
 	}
+	// stacked hooks: depth 2 and 3 (and 1 as the base case) x every path x every method
+	for depth := 1; depth <= 3; depth++ {
+		for _, p := range paths {
+			for _, m := range hkMethods {
+				if m == "Dedicated" || m == "Dedicate" || m == "Nodes" {
+					continue // derivations are exercised as path steps
+				}
+				argcs := []int{1}
+				if multiM[m] {
+					argcs = []int{0, 1, 2}
+				}
+				for _, n := range argcs {
+					hookOp(c, fmt.Sprintf("stack %d %s %d %s", depth, m, n, pstr(p)))
+					if hkEntry[m] {
+						hookOp(c, fmt.Sprintf("!stack %d %s %d %s", depth, m, n, pstr(p)))
+					}
+				}
+			}
+		}
+	}
 	// deeper random paths: mostly nodes* followed by an optional dedicate/dedicated
 	n := c.N
 	for i := 0; i < n; i++ {
@@ -664,12 +766,19 @@ func runHook(c *Ctx) {
 		if hkEntry[m] {
 			hookOp(c, fmt.Sprintf("!hook %s %d %s", m, n, pstr(p)))
 		}
+		depth := 2 + c.Rng.IntN(4)
+		if m != "Dedicated" && m != "Dedicate" && m != "Nodes" {
+			hookOp(c, fmt.Sprintf("stack %d %s %d %s", depth, m, n, pstr(p)))
+		}
+		if hkEntry[m] {
+			hookOp(c, fmt.Sprintf("!stack %d %s %d %s", depth, m, n, pstr(p)))
+		}
 	}
 }
 
 func init() {
 	suites["hook"] = suite{
-		rule: "every derivation path over {nodes,dedicate,dedicated} up to length 3 (exhaustive) and random paths up to length 10, times every method of rueidis.Client/DedicatedClient (DoMulti/DoMultiCache/DoMultiStream with 0, 1, 2, 3 and 17 commands), with a non-forwarding and a forwarding counting hook on a mock inner client; non-trivial = entry point called on a derived (non-root) client, distinct op",
+		rule: "every derivation path over {nodes,dedicate,dedicated} up to length 3 (exhaustive) and random paths up to length 10, times every method of rueidis.Client/DedicatedClient (DoMulti/DoMultiCache/DoMultiStream with 0, 1, 2, 3 and 17 commands), with a non-forwarding and a forwarding counting hook on a mock inner client; the same with 2 and 3 (random: up to 5) STACKED forwarding hooks, judged per hook level; non-trivial = entry point called on a derived (non-root) client, distinct op",
 		run:  runHook,
 		replay: func(c *Ctx, lines []string) {
 			for _, l := range lines {
